@@ -210,6 +210,27 @@ fn step(resolved: bool, regs: &[Option<Elem>], op: &str) -> (String, Option<Elem
                     (format!("{a}|{}", sizes(&it)), None)
                 }
                 "ar" => (format!("{},{}", n.arity(), n.arity_with_tokens()), None),
+                // a sequence of nth(k) calls on ONE child iterator (k = 0 is next): what it yields
+                "itn" | "its" => {
+                    let script: Vec<usize> = parts.get(2).map(|s| s.split('.').filter(|x| !x.is_empty()).map(|x| x.parse().unwrap_or(0)).collect()).unwrap_or_default();
+                    let mut out = Vec::new();
+                    if name == "itn" {
+                        let mut it = n.children();
+                        for k in script {
+                            if let Some(c) = it.nth(k) {
+                                out.push(show_ref(c.into()));
+                            }
+                        }
+                    } else {
+                        let mut it = n.children_with_tokens();
+                        for k in script {
+                            if let Some(c) = it.nth(k) {
+                                out.push(show_ref(c));
+                            }
+                        }
+                    }
+                    list(out)
+                }
                 _ => ("-".into(), None),
             }
         }
